@@ -492,6 +492,8 @@ struct Case {
     list: Vec<ds::Horizontal>,
     pack: ds::PackWidth,
     target: Target,
+    /// false for enumerated phases, whose cases are distinct by construction (counted without hashing)
+    hash: bool,
 }
 
 fn dom_trigger(m: &Packed) -> bool {
@@ -499,7 +501,7 @@ fn dom_trigger(m: &Packed) -> bool {
 }
 
 fn check_case(case: Case, obs: &mut Obs, tally: &mut Tally, in_known_phase: bool) {
-    let Case { list, pack, target } = case;
+    let Case { list, pack, target, hash } = case;
     let Some(items) = convert(&list, false) else {
         obs.skip("node kind outside quantifier");
         return;
@@ -695,7 +697,7 @@ fn check_case(case: Case, obs: &mut Obs, tally: &mut Tally, in_known_phase: bool
         }
     }
 
-    if items.iter().any(|i| matches!(i, Item::Glue { .. })) {
+    if hash && items.iter().any(|i| matches!(i, Item::Glue { .. })) {
         obs.nontrivial(&(&items, m.width));
     }
     if obs.wants_sample() {
@@ -800,13 +802,13 @@ impl Monitor for M {
             );
         }
         // one index = 32 random lists
-        v.push(Phase::new("random", tier.pick(20_000, 1_000_000)).batch(tier.pick(64, 1024)));
+        v.push(Phase::new("random", tier.pick(20_000, 2_000_000)).batch(tier.pick(64, 1024)));
         v
     }
     fn floors(&self, tier: Tier) -> Vec<(&'static str, u64)> {
         let s = tier.pick(1, 50);
         vec![
-            ("packs", tier.pick(700_000, 30_000_000)),
+            ("packs", tier.pick(700_000, 80_000_000)),
             ("class:stretch-normal", 2000 * s),
             ("class:stretch-fil", 2000 * s),
             ("class:stretch-fill", 1000 * s),
@@ -837,7 +839,7 @@ impl Monitor for M {
             "known" => {
                 let (list, delta) = known_cases().swap_remove(idx as usize);
                 check_case(
-                    Case { list, pack: ds::PackWidth::Additional(Scaled(delta)), target: Target::Additional(delta) },
+                    Case { list, pack: ds::PackWidth::Additional(Scaled(delta)), target: Target::Additional(delta), hash: true },
                     obs,
                     &mut tally,
                     true,
@@ -860,16 +862,16 @@ impl Monitor for M {
                     } else {
                         (ds::PackWidth::Exact(Scaled(nat + *delta)), Target::Exactly(nat + *delta))
                     };
-                    check_case(Case { list: list.clone(), pack, target }, obs, &mut tally, false);
+                    check_case(Case { list: list.clone(), pack, target, hash: false }, obs, &mut tally, false);
                 }
-                obs.nontrivial_by_construction(0);
+                obs.nontrivial_by_construction(ENUM_DELTAS.len() as u64);
             }
             _ => {
                 for _ in 0..32 {
                     let list = rand_list(rng);
                     let Some(items) = convert(&list, false) else { continue };
                     let (pack, target) = rand_target(rng, &items);
-                    check_case(Case { list, pack, target }, obs, &mut tally, false);
+                    check_case(Case { list, pack, target, hash: true }, obs, &mut tally, false);
                 }
             }
         }
